@@ -23,7 +23,7 @@ PROP = dict(
     rule="(i) exhaustive: every sequence of length <= 2 (thorough 3) over an 18-event alphabet with colliding keys "
          "(ids 'a' / 'a:b', filters 'b:c' / 'c'), take-over and expiring disconnects, refused filters, acknowledgement "
          "records in flight; (ii) random histories of 3..27 events over ids/filters/topics containing ':', '_', '/', the "
-         "type tags, unicode and the empty string, biased to existing and colliding keys (quick 150, thorough 1500); "
+         "type tags, unicode and the empty string, biased to existing and colliding keys, every persisted field of clients, subscriptions and messages varied, topic alias on half of the packets (quick 150, thorough 1500); all read-back fields incl. T and TopicAlias compared; "
          "(iii) keys at the engines' limits (32768/32769, 65000/65001, 65535) and ids made of key syntax.  quick: bolt + "
          "redis on every case, all four on every 16th; thorough: pebble + bolt + redis on every case, badger on every 4th.  "
          "non-trivial = at least two events; distinct = distinct case lines",
